@@ -7,7 +7,8 @@ RULE = ("event histories (length 1-8: open, change, create, rename, delete, conf
         "prefer-package-imports flip) incl. contents that stop parsing; the REAL LanguageServer (all workers, in-memory "
         "jsonrpc2 pipe) is driven with them; at quiescence (both job queues empty, no publishDiagnostics for 1.8 s, twice, after a 1.2 s settle) the "
         "last published diagnostics per file are compared with those of a fresh server started on the same final contents. "
-        "non-trivial = the history changes some file's diagnostics; distinct = distinct (workspace, history)")
+        "non-trivial = the history changes some file's diagnostics; distinct = distinct (workspace, history)"
+        ' Also: directed aggregate updates under a sparse-collector configuration, change->delete and open->delete->relint bursts, layout-only edits, renames out of the linted set; the cache invariant of the LspCache model read from the real server at quiescence.')
 TRUSTED = ["sourcegraph/jsonrpc2 dispatch; fsnotify for config changes; idleness is detected by polling (generous deadlines)"]
 ASSUMPTIONS = ["worker steps are atomic in the Lean model; finer interleavings are only sampled by the free-running harness"]
 
